@@ -10,6 +10,7 @@ Import ListNotations.
 From Yaqs Require LinAlg.Unravel.
 From Yaqs Require Import Base.Num Model.NoiseAttrib Proofs.NoiseAttribP Model.JumpPipeline Proofs.JumpPipelineP.
 From Yaqs Require Import Proofs.DissipationP.
+From Yaqs Require LinAlg.Strang.
 
 Theorem C01_weight_belongs_to_its_process : forall (N : Num) L dt ns (l : list (proc N)) k p,
   nth_error l k = Some p -> nth_error (weights N L dt ns l) k = Some (weight N L dt ns p).
@@ -79,3 +80,12 @@ Theorem C01_unravelling_step_is_lindblad_to_first_order :
                                           (add (mul (mul (dag l) l) rho) (mul rho (mul (dag l) l)))))).
 Proof. exact @Unravel.unravelling_first_order. Qed.
 Print Assumptions C01_unravelling_step_is_lindblad_to_first_order.
+
+(* a half step, a full step, a half step is exact through second order in the step (LinAlg/Strang.v: series truncated after dt^2 over
+   any ring, the last entry of a triple being twice the second-order coefficient; texp X = (1, X, X*X)) *)
+Theorem C01_symmetric_splitting_is_second_order :
+  forall (R : Type) (ring0 ring1 : R) (add mul sub : R -> R -> R) (opp : R -> R) (req : R -> R -> Prop)
+         (Rops : @Ncring.Ring_ops R ring0 ring1 add mul sub opp req), @Ncring.Ring R ring0 ring1 add mul sub opp req Rops ->
+  forall C B : R, Strang.teq (Strang.tmul (Strang.tmul (Strang.texp C) (Strang.texp B)) (Strang.texp C)) (Strang.texp (add (add C C) B)).
+Proof. exact @Strang.strang. Qed.
+Print Assumptions C01_symmetric_splitting_is_second_order.
